@@ -89,91 +89,145 @@ def run(repo: Repo, chk: Check) -> None:
             if unparse(n.func) in ("round", "math.ceil") or (unparse(n.func) == "float"):
                 chk.ob("O1", Site.of(f, n), False, f"{unparse(n.func)}() in the interval computation: the index must be the floor of an exact quotient")
             del inner_div
-    # ---------------------------------------------------------------- O2 formula
-    # the definitions of l0/l1/l2 that reach the cache lookup
-    gk = [n for n in body_nodes(f.node) if isinstance(n, ast.Call) and isinstance(n.func, ast.Attribute) and n.func.attr == "_get_key"]
-    if len(gk) != 1 or len(gk[0].args) != 5:
-        raise AnalysisError("_get_protection_gke_from_cache: cache lookup call changed")
-    roles = dict(zip(("l0", "l1", "l2"), gk[0].args[2:5]))
-    role_defs: t.Dict[str, t.Any] = {}
-    tvar: t.Optional[str] = None
-    for role, arg in roles.items():
-        site = Site.of(f, arg, f"{role} = ...")
-        if not isinstance(arg, ast.Name):
-            chk.ob("O2", Site.of(f, gk[0]), False, f"{role} argument of the cache lookup is {unparse(arg)}")
-            continue
-        d = rd.single_def(arg.id, gk[0])
-        if d is None or d.value is None or d.index is not None:
-            chk.ob("O2", Site.of(f, gk[0]), False, f"{role} has no single definition at the cache lookup")
-            continue
-        role_defs[role] = d
-        site = Site.of(f, d.stmt)
-        nf = normal_form(repo, f, d.value)
-        if nf is None:
-            chk.ob("O2", site, False, f"{unparse(d.value)} is not of the form floor(t / D) [mod M]")
-            continue
-        tv, D, M = nf
-        tvar = tvar or tv
-        wantD, wantM = WANT[role]
-        ok = (D, M) == (wantD, wantM) and tv == tvar
-        chk.ob("O2", site, ok, f"{role} = floor({tv} / {D})" + (f" mod {M}" if M else "") if ok else f"{role} normalises to floor({tv} / {D})" + (f" mod {M}" if M else "") + f", MS-GKDI 3.1.4.1 says floor(t / {wantD})" + (f" mod {wantM}" if wantM else ""))
-    chk.count("index formulas", len(role_defs))
-    if not any(not o.ok for o in chk.obligations):
-        chk.require_min("index formulas", 3)
-    if tvar is None:
-        if any(not o.ok for o in chk.obligations):
-            return
-        raise AnalysisError("time variable not identified")
-    # t = time_ns() // 100 + EPOCH, one definition for all three
-    some = next(iter(role_defs.values()))
-    td = rd.single_def(tvar, some.stmt)
-    okt = False
-    why = f"{tvar} has no single definition"
-    if td is not None and td.value is not None:
-        why = f"{tvar} = {unparse(td.value)}"
-        okt = is_filetime(repo, f, td.value, clocks[0])
-        if not okt and isinstance(td.value, ast.Call) and not td.value.args and not td.value.keywords:
-            # FILETIME computed by a helper: def h(): return time.time_ns() // 100 + EPOCH
-            tgt = world.resolve_call(f, td.value)
-            if isinstance(tgt, Func):
-                rets_h = [n for n in body_nodes(tgt.node) if isinstance(n, ast.Return) and n.value is not None]
-                okt = len(rets_h) == 1 and is_filetime(repo, tgt, rets_h[0].value, clocks[0])
-    chk.ob("O2", Site.of(f, td.stmt if td is not None else None, None if td is not None else tvar), okt, "t = time_ns() // 100 + 116444736000000000 (FILETIME of now)" if okt else f"{why}: expected exactly time.time_ns() // 100 + {EPOCH} (no offset, skew allowance or rounding)")
-    same = all(rd.single_def(tvar, d.stmt) is td for d in role_defs.values())
-    chk.ob("O3", Site.of(f, construct="all indices computed from one time value"), same, "one definition of the time feeds L0, L1 and L2" if same else "the indices are computed from different time values")
-    # ---------------------------------------------------------------- O4 propagation
-    c2 = [n for n in body_nodes(f.node) if isinstance(n, ast.Call) and unparse(n.func) == "compute_l2_key"]
-    okc = len(c2) == 1 and len(c2[0].args) == 4 and all(isinstance(a, ast.Name) and a.id == roles[r].id and rd.single_def(a.id, c2[0]) is role_defs.get(r) for r, a in zip(("l1", "l2"), c2[0].args[1:3]))
-    chk.ob("O4", Site.of(f, c2[0] if c2 else None, None if c2 else "compute_l2_key call"), bool(okc), "the L2 key is derived for the computed (L1, L2)" if okc else "compute_l2_key is not called with the computed L1 and L2 in that order")
-    rets = [n for n in body_nodes(f.node) if isinstance(n, ast.Return)]
+    # ---------------------------------------------------------------- O2 formula / O3 one time value / O4 propagation
+    from sa.pathsum import Summary
+
+    from .util import ev_args
+
+    summ = Summary(f, ["root_key_identifier", "target_sd", "cache"])
+    clock_uid = getattr(clocks[0], "_uid", None) if sites[0][0] is f else None
+    n_lookup = 0
     n_env = 0
-    for r in rets:
-        v = r.value
-        if v is None or (isinstance(v, ast.Constant) and v.value is None):
+    for ps in summ.paths:
+        gk = ps.calls("_get_key")
+        if not gk:
+            if ps.exit == "return" and not (isinstance(ps.value, ast.Constant) and ps.value.value is None):
+                chk.ob("O4", Site.of(f, ps.exit_node), False, f"returns {ps.text(ps.value)[:60]} on a path without a cache lookup for the computed position")
             continue
-        site = Site.of(f, r)
-        if not (isinstance(v, ast.Call) and unparse(v.func) == "GroupKeyEnvelope"):
-            chk.ob("O4", site, False, f"returns {unparse(v)[:60]} instead of an envelope built for the computed (L0, L1, L2): a cached envelope names its own, possibly later, interval")
+        if len(gk) != 1:
+            raise AnalysisError("_get_protection_gke_from_cache: cache lookup call changed")
+        n_lookup += 1
+        ga = ev_args(repo, f, gk[0])
+        roles = {r: ga.get(r) for r in ("l0", "l1", "l2")}
+        tkeys = set()
+        for role, tree in roles.items():
+            site = Site.of(f, gk[0].node, f"{role} of the cache lookup")
+            if tree is None:
+                chk.ob("O2", site, False, f"the cache lookup has no {role} argument")
+                continue
+            q = quotient_form(repo, f, tree)
+            if q is None:
+                chk.ob("O2", site, False, f"{ps.text(tree)} is not of the form floor(t / D) [mod M] over t = time_ns() // 100 + {EPOCH}")
+                continue
+            tkey, D, M = q
+            tkeys.add(tkey)
+            chk.count("index formulas")
+            wantD, wantM = WANT[role]
+            ok = (D, M) == (wantD, wantM)
+            chk.ob("O2", site, ok, f"{role} = floor(t / {D})" + (f" mod {M}" if M else "") if ok else f"{role} normalises to floor(t / {D})" + (f" mod {M}" if M else "") + f", MS-GKDI 3.1.4.1 says floor(t / {wantD})" + (f" mod {wantM}" if wantM else ""))
+        same = len(tkeys) == 1
+        chk.ob("O3", Site.of(f, gk[0].node, "all indices computed from one time value"), same, "one time value (a single clock read) feeds L0, L1 and L2" if same else f"the indices are computed from {len(tkeys)} different time values")
+        # O4: compute_l2_key targets and returned envelope fields are those very values
+        c2 = ps.calls("compute_l2_key")
+        K = ps.key
+        if ps.exit != "return" or (isinstance(ps.value, ast.Constant) and ps.value.value is None):
+            continue
+        v = ps.value
+        site = Site.of(f, ps.exit_node)
+        if not (isinstance(v, ast.Call) and ps.text(v.func) == "GroupKeyEnvelope"):
+            chk.ob("O4", site, False, f"returns {ps.text(v)[:60]} instead of an envelope built for the computed (L0, L1, L2): a cached envelope names its own, possibly later, interval")
             continue
         n_env += 1
-        kws = {k.arg: k.value for k in v.keywords if k.arg}
+        ca = ev_args(repo, f, c2[0]) if len(c2) == 1 else {}
+        okc = len(c2) == 1 and all(roles[r] is not None and ca.get(p_) is not None and K(ca[p_]) == K(roles[r]) for r, p_ in (("l1", "request_l1"), ("l2", "request_l2")))
+        chk.ob("O4", Site.of(f, c2[0].node if c2 else None, None if c2 else "compute_l2_key call"), bool(okc), "the L2 key is derived for the computed (L1, L2)" if okc else "compute_l2_key is not called with the computed L1 and L2 in that order")
+        from .util import args_of
+
+        kws = args_of(repo, f, v)
         for role in ("l0", "l1", "l2"):
             a = kws.get(role)
-            ok = isinstance(a, ast.Name) and isinstance(roles[role], ast.Name) and a.id == roles[role].id and rd.single_def(a.id, r) is role_defs.get(role)
-            chk.ob("O4", site, ok, f"envelope.{role} is the computed {role}" if ok else f"envelope.{role} is {unparse(a) if a is not None else 'missing'}")
+            ok = a is not None and roles[role] is not None and K(a) == K(roles[role])
+            chk.ob("O4", site, ok, f"envelope.{role} is the computed {role}" if ok else f"envelope.{role} is {ps.text(a) if a is not None else 'missing'}")
         lk = kws.get("l2_key")
-        okl = isinstance(lk, ast.Name) and c2 and rd.single_def(lk.id, r) is not None and rd.single_def(lk.id, r).value is c2[0]  # type: ignore[union-attr]
-        chk.ob("O4", site, bool(okl), "envelope.l2_key is the key derived for that position" if okl else f"envelope.l2_key is {unparse(lk) if lk is not None else 'missing'}")
+        okl = lk is not None and len(c2) == 1 and K(lk) == K(c2[0].tree)
+        chk.ob("O4", site, bool(okl), "envelope.l2_key is the key derived for that position" if okl else f"envelope.l2_key is {ps.text(lk) if lk is not None else 'missing'}")
+    if n_lookup == 0:
+        raise AnalysisError("_get_protection_gke_from_cache: cache lookup call changed")
+    if not any(not o.ok for o in chk.obligations):
+        chk.require_min("index formulas", 3)
     chk.ob("O4", Site.of(f, construct="returned envelopes"), n_env >= 1, f"{n_env} envelope construction(s) returned")
+    del clock_uid
     # new_kek copies the position (shared with C01-O3)
     nk = repo.method("_gkdi.GroupKeyEnvelope", "new_kek")
     chk.analysed(nk)
-    ki = [n for n in body_nodes(nk.node) if isinstance(n, ast.Call) and unparse(n.func) == "KeyIdentifier"]
-    for c in ki:
-        kws = {k.arg: k.value for k in c.keywords if k.arg}
-        for role in ("l0", "l1", "l2"):
-            ok = role in kws and unparse(kws[role]) == f"self.{role}"
-            chk.ob("O4", Site.of(nk, c, f"KeyIdentifier({role}=...)"), ok, f"identifier.{role} = envelope.{role}" if ok else f"KeyIdentifier.{role} is {unparse(kws.get(role)) if role in kws else 'missing'}")
+    for ps in Summary(nk, ["self"]).returning():
+        for c in [c for c in ps.calls("KeyIdentifier") if ps.text(t.cast(ast.Call, c.tree).func) == "KeyIdentifier"]:
+            kws2 = ev_args(repo, nk, c)
+            for role in ("l0", "l1", "l2"):
+                ok = role in kws2 and ps.text(kws2[role]) == f"self.{role}"
+                chk.ob("O4", Site.of(nk, c.node, f"KeyIdentifier({role}=...)"), ok, f"identifier.{role} = envelope.{role}" if ok else f"KeyIdentifier.{role} is {ps.text(kws2.get(role)) if role in kws2 else 'missing'}")
+
+
+def quotient_form(repo: Repo, f: Func, e: ast.expr) -> t.Optional[t.Tuple[str, int, t.Optional[int]]]:
+    """e, an expression over a single clock read, as (identity of t, D, M) with e == floor(t / D) [mod M] where
+    t = time.time_ns() // 100 + EPOCH.  The algebra: with Q(D, M) = floor(t / D) mod M (M None: no modulus)
+        t = Q(1, None);  Q(D, None) // k = Q(D k, None);  Q(D, M) // k = Q(D k, M / k) if k | M;
+        Q(D, None) % m = Q(D, m);  Q(D, M) % m = Q(D, m) if m | M;  int(a / k) = math.floor(a / k) = a // k (exactness is O1);
+        divmod(a, k)[0] = a // k;  divmod(a, k)[1] = a % k.
+    Anything else (offsets, rounding, other operators) is not a floor-quotient of the current time."""
+    from sa.flow import tag_tree
+    import copy
+
+    def const(x: ast.expr) -> t.Optional[int]:
+        return _const(repo, f, x, {})
+
+    def ev(x: ast.expr) -> t.Optional[t.Tuple[str, int, t.Optional[int]]]:
+        if is_filetime_tree(repo, f, x):
+            return unparse(tag_tree(copy.deepcopy(x))), 1, None
+        if isinstance(x, ast.BinOp) and isinstance(x.op, ast.FloorDiv):
+            return div(ev(x.left), const(x.right))
+        if isinstance(x, ast.BinOp) and isinstance(x.op, ast.Mod):
+            return mod(ev(x.left), const(x.right))
+        if isinstance(x, ast.Call) and unparse(x.func) in ("int", "math.floor") and len(x.args) == 1 and not x.keywords:
+            a = x.args[0]
+            if isinstance(a, ast.BinOp) and isinstance(a.op, ast.Div):
+                return div(ev(a.left), const(a.right))
+            return ev(a) if unparse(x.func) == "int" else None
+        if isinstance(x, ast.Subscript) and isinstance(x.value, ast.Call) and unparse(x.value.func) == "divmod" and len(x.value.args) == 2 and isinstance(x.slice, ast.Constant):
+            a, k = ev(x.value.args[0]), const(x.value.args[1])
+            return div(a, k) if x.slice.value == 0 else mod(a, k) if x.slice.value == 1 else None
+        return None
+
+    def div(q: t.Optional[t.Tuple[str, int, t.Optional[int]]], k: t.Optional[int]) -> t.Optional[t.Tuple[str, int, t.Optional[int]]]:
+        if q is None or not k or k <= 0:
+            return None
+        tk, D, M = q
+        if M is None:
+            return tk, D * k, None
+        if M % k == 0:
+            return tk, D * k, M // k
+        return None
+
+    def mod(q: t.Optional[t.Tuple[str, int, t.Optional[int]]], m: t.Optional[int]) -> t.Optional[t.Tuple[str, int, t.Optional[int]]]:
+        if q is None or not m or m <= 0:
+            return None
+        tk, D, M = q
+        if M is None or M % m == 0:
+            return tk, D, m
+        return None
+
+    return ev(e)
+
+
+def is_filetime_tree(repo: Repo, f: Func, e: ast.expr) -> bool:
+    """time.time_ns() // 100 + EPOCH (either operand order)."""
+    if not (isinstance(e, ast.BinOp) and isinstance(e.op, ast.Add)):
+        return False
+    for a, b in ((e.left, e.right), (e.right, e.left)):
+        c = _const(repo, f, b, {})
+        if c == EPOCH and isinstance(a, ast.BinOp) and isinstance(a.op, ast.FloorDiv) and isinstance(a.left, ast.Call) and repo.dotted(a.left.func, f.mod) == "time.time_ns" and _const(repo, f, a.right, {}) == 100:
+            return True
+    return False
 
 
 def _const(repo: Repo, f: Func, e: ast.expr, local: t.Dict[str, int]) -> t.Optional[int]:
